@@ -262,7 +262,24 @@ static bool a32_out_of_range(const lit &L)
     return L.fp.size() > 18;
 }
 
-static void check_atof(out &o, const lit &L, bool single, ld v, bool vnan, long end, bool has_end)
+// recorded class of igris_atof64: the digit string, read as an integer, is not below 2^1022 (309 or more
+// significant integer+fraction digits): it overflows to +inf before the scaling loop can bring it back
+static bool a64_mantissa_overflow(const lit &L)
+{
+    std::string m = L.ip + L.fp;
+    size_t z = 0;
+    while (z < m.size() && m[z] == '0') z++;
+    return m.size() - z >= 308;
+}
+// theorem budget of a literal in half units of 2^-53 (atofCost of the Lean model, closed form): the class
+// with budget <= 6 is guaranteed within 3.03 * 2^-53 * |value| by theorem atof64_error_bound_partial
+static bool a64_small_budget(const lit &L)
+{
+    long d = L.ex - (long)L.fp.size();
+    return sigdigits(L) <= 15 && labs(d) <= 2 && (L.ip.size() + L.fp.size()) <= 15;
+}
+
+static void check_atof(out &o, const lit &L, bool single, ld v, bool vnan, long end, bool has_end, bool strict = false)
 {
     if (has_end && end != (long)L.end) { o.fail("end offset " + std::to_string(end) + ", the literal ends at " + std::to_string(L.end)); return; }
     ld ref;
@@ -283,6 +300,7 @@ static void check_atof(out &o, const lit &L, bool single, ld v, bool vnan, long 
         size_t nd = sigdigits(L);
         long d = L.ex - nfrac;
         steps = 2 + 2.0L * (nd > 15 ? nd - 15 : 0) + 1.5L * labs(d);
+        if (strict) steps = 4; // op a64u: the property's "within a few ulps of strtod" taken literally
         unit = ldexpl(1, -53), tiny = ldexpl(1, -1074);
     }
     ld allowed = steps * unit * fabsl(ref) + 2 * tiny;
@@ -349,6 +367,10 @@ static std::string do_sf(const std::vector<std::string> &w)
     if (op == "mul64") { vd1 = d_of(A), vd2 = d_of(B); double r = vd1 * vd2; return dbits(r); }
     if (op == "div32") { vf1 = f_of(A), vf2 = f_of(B); float r = vf1 / vf2; return fbits(r); }
     if (op == "div64") { vd1 = d_of(A), vd2 = d_of(B); double r = vd1 / vd2; return dbits(r); }
+    // one rounding of M * 2^E (M a 64-bit integer, E = B - 4096) into the format: x87 extended holds
+    // M * 2^E exactly, the cast is the FPU's round-to-nearest-even -> ties `roundPack` to the hardware
+    if (op == "rp32") { volatile ld v = ldexpl((ld)A, (int)B - 4096); float r = (float)v; return fbits(r); }
+    if (op == "rp64") { volatile ld v = ldexpl((ld)A, (int)B - 4096); double r = (double)v; return dbits(r); }
     if (op == "cvt") { vd1 = d_of(A); float r = (float)vd1; return fbits(r); }
     if (op == "ext") { vf1 = f_of(A); double r = (double)vf1; return dbits(r); }
     if (op == "m10") { vf1 = f_of(A); float f = vf1; f *= 10.0; return fbits(f); } // the statement of the digit loop
@@ -485,7 +507,7 @@ static void run_op(const std::vector<std::string> &w, const std::string &, out &
         o.tag("sweep");
         return;
     }
-    if (op == "a32" || op == "a32n" || op == "a64" || op == "strtod" || op == "atof" || op == "brf")
+    if (op == "a32" || op == "a32n" || op == "a64" || op == "a64u" || op == "strtod" || op == "atof" || op == "brf")
     {
         bytes m = unhex(w[1]);
         if (m.empty() || std::find(m.begin(), m.end(), 0) == m.end()) { o.result = "bad-op"; return; }
@@ -506,7 +528,7 @@ static void run_op(const std::vector<std::string> &w, const std::string &, out &
             br.bind_buffer(q, 0); // reads the reader's position
             end = (char *)q;
         }
-        else if (op == "a64") vd = igris_atof64((const char *)s.p, &end);
+        else if (op == "a64" || op == "a64u") vd = igris_atof64((const char *)s.p, &end);
         else if (op == "strtod") vd = igv_strtod((const char *)s.p, &end);
         else vd = igv_atof((const char *)s.p), has_end = false;
         o.result = single ? fbits(vf) : dbits(vd);
@@ -517,7 +539,7 @@ static void run_op(const std::vector<std::string> &w, const std::string &, out &
             else { eo = end - (char *)s.p; o.result += " e" + std::to_string(eo); }
         }
         if (!(has_end && end == UNSET))
-            check_atof(o, L, single, single ? (ld)vf : (ld)vd, single ? std::isnan(vf) : std::isnan(vd), eo, has_end);
+            check_atof(o, L, single, single ? (ld)vf : (ld)vd, single ? std::isnan(vf) : std::isnan(vd), eo, has_end, op == "a64u");
         o.tag(op.c_str());
         if (L.sign) o.tag(L.neg ? "minus" : "plus");
         if (L.ip.empty()) o.tag("no-integer-digits");
@@ -556,6 +578,40 @@ static void run_op(const std::vector<std::string> &w, const std::string &, out &
     {
         o.result = do_sf(w);
         o.tag(("sf-" + w[1]).c_str());
+        if ((w[1] == "rp32" || w[1] == "rp64") && w.size() >= 4)
+        {
+            // independent oracle: the result is a nearest value of the format (ties to even), i.e. the exact
+            // M * 2^E lies between the midpoints to the two neighbours of the result
+            bool s32 = w[1] == "rp32";
+            uint64_t M = strtoull(w[2].c_str(), 0, 16);
+            int E = (int)strtoull(w[3].c_str(), 0, 16) - 4096;
+            ld v = ldexpl((ld)M, E);
+            ld r, dn, up;
+            bool even, inf;
+            if (s32)
+            {
+                float f = (float)v;
+                inf = std::isinf(f), r = f, dn = nextafterf(f, -INFINITY), up = nextafterf(f, INFINITY), even = !(bits(f) & 1);
+                if (inf) { if (!(v >= ldexpl(1, 128) - ldexpl(1, 103))) o.fail("rp32: overflow although below the rounding boundary"); }
+                else if (std::isinf((float)up)) up = ldexpl(1, 128);
+            }
+            else
+            {
+                double f = (double)v;
+                inf = std::isinf(f), r = f, dn = nextafter(f, -INFINITY), up = nextafter(f, INFINITY), even = !(bits(f) & 1);
+                if (inf) { if (!(v >= ldexpl(1, 1024) - ldexpl(1, 970))) o.fail("rp64: overflow although below the rounding boundary"); }
+                else if (std::isinf((double)up)) up = ldexpl(1, 1024);
+            }
+            if (!inf)
+            {
+                ld lo = (dn + r) / 2, hi = (r + up) / 2; // exact: at most 54 significant bits
+                bool ok = (v > lo && v < hi) || ((v == lo || v == hi) && even);
+                if (!ok) o.fail("rounding of M*2^E is not to nearest even");
+                if (v == lo || v == hi) o.tag("sf-tie");
+                if (r != 0 && fabsl(r) < (s32 ? ldexpl(1, -126) : ldexpl(1, -1022))) o.tag("sf-subnormal-result");
+            }
+            else o.tag("sf-overflow");
+        }
         return;
     }
     o.result = "bad-op";
@@ -647,6 +703,17 @@ static void emit_lit(const std::string &kind, const std::string &text)
             static int aborting = 0;
             if (L.fp.size() > 18 && ++aborting > 10) return;
             printf("@F:C12-atof32-digit-count %s %s\n", kind.c_str(), h.c_str());
+            return;
+        }
+    }
+    if (kind == "a64" || kind == "strtod" || kind == "atof")
+    {
+        bytes m(text.begin(), text.end());
+        m.push_back(0);
+        lit L = match_literal(m.data());
+        if (a64_mantissa_overflow(L))
+        {
+            printf("@F:C12-atof64-mantissa-overflow %s %s\n", kind.c_str(), h.c_str());
             return;
         }
     }
@@ -770,6 +837,42 @@ static void gen(rng &r, const std::string &tier)
     // huge exponents (termination, overflow of the exponent accumulator)
     for (const char *c : {"1e2147483647", "1e2147483648", "1e-2147483649", "1e99999999999", "0e99999999999", "1e-99999999999", "1e4294967297"})
         emit_lit("a64", c), emit_lit("a32", c);
+    // mantissas that overflow before the scaling loop (recorded finding C12-atof64-mantissa-overflow): routed by emit_lit
+    for (int i = 0; i < (th ? 40 : 12); i++)
+    {
+        size_t n = 308 + r.below(30);
+        std::string digs = r.chance(50) ? "1" + std::string(n, '0') : digits_str(r, n + 1, false);
+        size_t cut = r.chance(50) ? digs.size() : r.below(digs.size());
+        std::string s = digs.substr(0, cut) + (cut < digs.size() ? "." + digs.substr(cut) : "");
+        s += "e-" + std::to_string((long)cut - 1 + (long)r.below(5));
+        emit_lit(r.chance(70) ? "a64" : "strtod", s);
+    }
+    emit_lit("a64", "1" + std::string(310, '0') + "e-310");
+    // "within a few ulps of strtod" taken literally (4 units of 2^-53 |ref|), op a64u: the class the theorem
+    // guarantees (at most 15 digits, net exponent |d| <= 2) in the normal stream, large net exponents as
+    // probes of the recorded finding C12-atof64-scaling-error
+    for (int i = 0; i < (th ? 2000 : 500); i++)
+    {
+        std::string s;
+        if (r.chance(30)) s += "-";
+        size_t ni = r.below(9), nf = r.below(7);
+        if (ni + nf == 0) ni = 1;
+        s += digits_str(r, ni, false);
+        if (nf) s += "." + digits_str(r, nf);
+        long e = (long)nf + r.range(-2, 2);
+        if (r.chance(80)) s += "e" + std::to_string(e);
+        bytes m(s.begin(), s.end());
+        m.push_back(0);
+        lit L = match_literal(m.data());
+        if (a64_small_budget(L)) printf("a64u %s\n", hexstr(s).c_str());
+    }
+    for (int i = 0; i < (th ? 300 : 60); i++)
+    {
+        std::string s = digits_str(r, 1 + r.below(15), false);
+        s += (r.chance(70) ? "e-" : "e") + std::to_string(150 + r.below(150));
+        printf("@F:C12-atof64-scaling-error a64u %s\n", hexstr(s).c_str());
+    }
+    printf("@F:C12-atof64-scaling-error a64u %s\n", hexstr("1e-300").c_str());
     // ---------------- (4) debug printers
     {
         std::vector<double> dv;
@@ -849,6 +952,36 @@ static void gen(rng &r, const std::string &tier)
             printf("sf ext %08x\n", b);
             printf("sf m10 %08x\n", b);
             printf("sf tr32 %08x\n", b);
+        }
+        // single roundings of M * 2^E: random and tie significands, results in the subnormal / normal / overflow range
+        for (int i = 0; i < (th ? 12000 : 3000); i++)
+        {
+            bool s32 = r.chance(50);
+            int keep = s32 ? 24 : 53;
+            int len = 1 + (int)r.below(64);
+            uint64_t M = r.next() >> (64 - len) | 1ull << (len - 1);
+            if (len > keep && r.chance(60))
+            {
+                // exact tie / one below / one above the tie, with even or odd kept part
+                int cut = len - keep + (r.chance(30) ? (int)r.below(3) : 0); // bits dropped (more when the result is subnormal)
+                if (cut >= 1 && cut < 64)
+                {
+                    M = (M >> cut << cut) | 1ull << (cut - 1);
+                    int k = (int)r.below(3);
+                    if (k == 1) M -= 1;
+                    if (k == 2) M += 1;
+                }
+            }
+            int T; // exponent of the leading bit of the value
+            switch (r.below(4))
+            {
+            case 0: T = (s32 ? -152 : -1077) + (int)r.below(30); break;   // subnormal results, underflow to 0
+            case 1: T = (s32 ? 124 : 1020) + (int)r.below(6); break;       // around the overflow boundary
+            case 2: T = -20 + (int)r.below(60); break;
+            default: T = (s32 ? -126 : -1022) + (int)r.below(s32 ? 254 : 2046); break;
+            }
+            int E = T - (len - 1);
+            printf("sf %s %016llx %x\n", s32 ? "rp32" : "rp64", (unsigned long long)M, (unsigned)(E + 4096));
         }
         for (int i = 0; i < (th ? 2000 : 500); i++)
         {
